@@ -29,7 +29,7 @@ RULE = (
 
 def plan(tier, seed):
     specs = []
-    nscen = 3 if tier == 'quick' else 12
+    nscen = 6 if tier == 'quick' else 16
     ops = sorted(OPS)
     for kind in ('autoref', 'bdd'):
         for j, op in enumerate(ops):
@@ -41,7 +41,7 @@ def plan(tier, seed):
     nn = 24 if tier == 'thorough' else 8
     for k in range(nn):
         specs.append(dict(kind='natural', sub=k, n=4 + k % 3,
-                          steps=1200 if tier == 'thorough' else 300,
+                          steps=1200 if tier == 'thorough' else 600,
                           manager='autoref' if k % 2 == 0 else 'bdd',
                           starts=4 if k % 4 < 3 else None, hashseed=k))
     meta = dict(
